@@ -44,7 +44,11 @@ func (x *Exec) handleLoop(pre *State, l *ssau.Loop, from *ssa.BasicBlock) {
 	havocCells := map[string]cellRef{}
 	for pass := 0; pass < 4; pass++ {
 		results = nil
-		info = &LoopInfo{Loop: l, Fn: fr.fn, IV: map[string]bool{}, HdrName: hdr}
+		info = &LoopInfo{Loop: l, Fn: fr.fn, IV: map[string]bool{}, IVInit: map[string]int64{}, HdrName: hdr}
+		if x.loopInfos == nil {
+			x.loopInfos = map[string]*LoopInfo{}
+		}
+		x.loopInfos[hdr] = info
 		it := pre.clone()
 		ifr := it.top()
 		// havoc header phis
@@ -147,8 +151,8 @@ func (x *Exec) handleLoop(pre *State, l *ssau.Loop, from *ssa.BasicBlock) {
 			if c, isC := n.P.constVal(); isC {
 				if s, isS := step[p].constVal(); isS && s == 1 {
 					// φ + k with k = -c is the zero-based position
-					_ = c
 					info.IV["φ("+hdr+"."+p.Name()+")"] = true
+					info.IVInit["φ("+hdr+"."+p.Name()+")"] = c
 				}
 			}
 		}
